@@ -177,6 +177,10 @@ type Rig struct {
 	unboundR    []int
 	reboundL    []int
 	reboundR    []int
+	stallGaveUp bool
+	SlowCalls   []string        // lifecycle calls that returned only when the blocked transport gave up
+	unboundAtL  []time.Duration // simulated time of the Unbind
+	unboundAtR  []time.Duration
 	soak        bool     // long runs: pacers get rates far above the offered load
 	LiveAtClose []string // library goroutines still alive when Close returned
 	BuildErr    error
@@ -388,16 +392,25 @@ func (rg *Rig) Build(extra func(i int) interceptor.Factory) bool {
 }
 
 //go:norace
-func rigMark(g *simrt.G, step int) { g.Mark = step }
+func rigMark(g *simrt.G, step int, site string) {
+	if g.Tag == "" {
+		g.Tag = site
+	}
+	if g.Tag == site {
+		g.Mark = step
+	}
+}
 
 func newRig(e *Env, cfg RigCfg, ops []RigOp) *Rig {
 	e.S.OnRelease = func(g *simrt.G, woke bool) {
 		// (a stall injected inside a harness writer is not a new iteration)
+		// an iteration begins when the goroutine wakes at its *own loop's* wait (the first place it ever waited),
+		// not when it wakes from a hand-off inside the iteration (a send to a logger goroutine, a stalled writer)
 		if woke && !g.App && g.Where() != "sleep" {
-			rigMark(g, e.S.Step())
+			rigMark(g, e.S.Step(), g.Where())
 		}
 	}
-	return &Rig{e: e, cfg: cfg, ops: ops, unboundL: make([]int, len(cfg.Local)), unboundR: make([]int, len(cfg.Remote)), reboundL: make([]int, len(cfg.Local)), reboundR: make([]int, len(cfg.Remote))}
+	return &Rig{e: e, cfg: cfg, ops: ops, unboundL: make([]int, len(cfg.Local)), unboundR: make([]int, len(cfg.Remote)), reboundL: make([]int, len(cfg.Local)), reboundR: make([]int, len(cfg.Remote)), unboundAtL: make([]time.Duration, len(cfg.Local)), unboundAtR: make([]time.Duration, len(cfg.Remote))}
 }
 
 //go:norace
@@ -541,9 +554,15 @@ func (rg *Rig) bindLocal(s int) interceptor.RTPWriter {
 		if byLib && rg.cfg.LibStallUs != 0 {
 			// a slow transport: retransmissions, FEC and paced packets are still on their way for a while
 			e.Fault("stall_writer_lib")
-			if rg.cfg.LibStallUs > 0 {
+			switch {
+			case rg.cfg.LibStallUs > 0:
 				simrt.Sleep(us(rg.cfg.LibStallUs))
-			} else {
+			case rg.cfg.LibStallUs == -2:
+				// a transport that stays blocked until the connection is closed
+				for i := 0; i < 3000 && !rg.stallOver(i == 2999); i++ {
+					simrt.Sleep(time.Millisecond)
+				}
+			default:
 				simrt.Yield("downstream-lib")
 			}
 		}
@@ -570,6 +589,27 @@ func (rg *Rig) bindLocal(s int) interceptor.RTPWriter {
 
 //go:norace
 func rigInner(c *rigWrite) { c.innerCalls++ }
+
+// slow notes a lifecycle call that did not return while the transport stayed blocked (it came back only
+// because the harness's blocked transport gives up after three seconds so that the run can end).
+//
+//go:norace
+func (rg *Rig) slow(what string, t0 time.Duration) {
+	if rg.cfg.LibStallUs == -2 && rg.e.S.Now()-t0 >= 2500*time.Millisecond {
+		rg.SlowCalls = append(rg.SlowCalls, what)
+	}
+}
+
+// stallOver: the blocked transport lets go when the connection is being closed, or (no Close in this plan)
+// after three seconds, and then stays usable.
+//
+//go:norace
+func (rg *Rig) stallOver(timedOut bool) bool {
+	if timedOut {
+		rg.stallGaveUp = true
+	}
+	return rg.closeEnt != 0 || rg.stallGaveUp
+}
 
 func (rg *Rig) bindRemote(s int) interceptor.RTPReader {
 	e := rg.e
@@ -855,28 +895,38 @@ func (rg *Rig) Run() {
 				if o.S < len(rg.cfg.Local) && rg.unboundL[o.S] == 0 {
 					simrt.SleepUntil(us(o.AtUs))
 					e.Fault("unbind_at")
+					t0 := e.S.Now()
 					rg.chain.UnbindLocalStream(rg.linfo[o.S])
+					rg.slow("UnbindLocalStream", t0)
 					rg.mark(&rg.unboundL[o.S])
+					rg.unboundAtL[o.S] = e.S.Now()
 				}
 			case "ur":
 				if o.S < len(rg.cfg.Remote) && rg.unboundR[o.S] == 0 {
 					simrt.SleepUntil(us(o.AtUs))
 					e.Fault("unbind_at")
+					t0 := e.S.Now()
 					rg.chain.UnbindRemoteStream(rg.rinfo[o.S])
+					rg.slow("UnbindRemoteStream", t0)
 					rg.mark(&rg.unboundR[o.S])
+					rg.unboundAtR[o.S] = e.S.Now()
 				}
 			case "bl":
 				if o.S < len(rg.cfg.Local) {
 					simrt.SleepUntil(us(o.AtUs))
 					e.Fault("rebind")
+					t0 := e.S.Now()
 					rg.localW[o.S] = rg.bindLocal(o.S)
+					rg.slow("BindLocalStream", t0)
 					rg.rebound(true, o.S)
 				}
 			case "br":
 				if o.S < len(rg.cfg.Remote) {
 					simrt.SleepUntil(us(o.AtUs))
 					e.Fault("rebind")
+					t0 := e.S.Now()
 					rg.remoteR[o.S] = rg.bindRemote(o.S)
+					rg.slow("BindRemoteStream", t0)
 					rg.rebound(false, o.S)
 				}
 			case "close":
